@@ -168,6 +168,22 @@ func generate(w *World, cs *Contracts, ms *ModSets, o runOpts) ([]*Obligation, [
 			os.WriteFile(filepath.Join(verifDir, "out", "ivl", sanitize(key)+".smt2"), []byte(strings.Join(vc.cmds, "\n")), 0o644)
 		}
 	}
+	for _, lm := range cs.Lemmas {
+		if !hasProp(lm.Props, o.property) || (o.only != "" && o.only != lm.Name) {
+			continue
+		}
+		rep := &FuncReport{Key: "lemma " + lm.Name}
+		reps = append(reps, rep)
+		lo, err := lemmaObligations(w, cs, lm)
+		if err != nil {
+			rep.Error = err.Error()
+			obls = append(obls, &Obligation{Name: lm.Name + ":translate", Kind: "translate", Func: lm.Name, Goal: "false", Props: lm.Props,
+				Text: "the lemma compiles", Result: &SolveResult{Status: "error", Output: err.Error()}})
+			continue
+		}
+		obls = append(obls, lo...)
+		rep.Obligations = len(lo)
+	}
 	return obls, reps, fatal, assumed
 }
 
